@@ -1,234 +1,86 @@
-mod alloc; mod ev; mod gen; mod mock; mod proto; mod show;
-#[global_allocator] static GLOBAL: alloc::Counting = alloc::Counting;
-use ev::Ev; use gen::*; use mock::*;
-use ross_protocol::frame::*;
-use ross_protocol::interface::{can::Can, serial::Serial, usart::Usart, Interface, InterfaceError};
-use ross_protocol::packet::{Packet, PacketBuilder, PacketBuilderError};
-use std::io::Write as _;
+//! Correspondence harness for ross-protocol: runs the real code (path dependency on /repo) on generated or
+//! literal inputs and prints one `<scenario> <inputs> => <observation>` line per case (DESIGN.md, appendix A).
+//!
+//!   ross-harness run <group> <from> <to>     generate cases from..to of the group and execute them
+//!   ross-harness gen <group> <from> <to>     print the inputs only (no code under test is called)
+//!   ross-harness exec <file|->               execute literal input lines (anything after " => " is ignored)
+//!
+//! `VERIF_SEED` seeds the generators. With `VERIF_INFLIGHT=1` the input of every case is written to stderr
+//! before it is executed, so that a crash of the process is attributed to a case.
+mod alloc;
+mod ev;
+mod gen;
+mod mock;
+mod proto;
+mod refenc;
+mod scen;
+mod text;
+
+#[global_allocator]
+static GLOBAL: alloc::Counting = alloc::Counting;
+
+use std::io::{BufRead, Write};
 use std::panic::{catch_unwind, AssertUnwindSafe};
-use std::sync::{Arc, Mutex};
 
-fn class<T, E>(r: std::thread::Result<Result<T, E>>, show: impl Fn(&T) -> String) -> String {
-    match r { Err(_) => "panic".into(), Ok(Err(_)) => "err".into(), Ok(Ok(v)) => format!("ok({})", show(&v)) }
-}
-fn gen_frame(r: &mut Rng, wf: bool) -> Frame {
-    let id = if wf { r.u16() & 0x0fff } else { r.u16() };
-    let len = if wf { r.below(9) as u8 } else { r.byte() };
-    let mut data = [0u8; 8]; for k in 0..(len.min(8) as usize) { data[k] = r.byte(); } if !wf && r.flip() { data[7] = r.byte(); }
-    Frame { not_error_flag: r.flip(), start_frame_flag: r.flip(), multi_frame_flag: r.flip(), frame_id: if r.flip() { FrameId::LastFrameId(id) } else { FrameId::CurrentFrameId(id) },
-        device_address: r.u16(), data_len: len, data }
-}
-fn gen_can(r: &mut Rng) -> bxcan::Frame {
-    let dlc = r.below(9) as usize; let data = r.bytes(dlc);
-    match r.below(10) {
-        0 => bxcan::Frame::new_data(bxcan::StandardId::new(r.below(0x800) as u16).unwrap(), bxcan::Data::new(&data).unwrap()),
-        1 => bxcan::Frame::new_remote(bxcan::ExtendedId::new(r.next() as u32 & 0x1fff_ffff).unwrap(), dlc as u8),
-        _ => { let id = match r.below(3) { 0 => r.next() as u32 & 0x1fff_ffff, 1 => 1u32 << r.below(29), _ => ((r.below(8) as u32) << 26) | ((r.below(64) as u32) << 20) | ((r.below(16) as u32) << 16) | r.u16() as u32 };
-               bxcan::Frame::new_data(bxcan::ExtendedId::new(id).unwrap(), bxcan::Data::new(&data).unwrap()) }
+fn run_one(out: &mut impl Write, input: &str, inflight: bool) {
+    if inflight {
+        eprintln!("INFLIGHT {}", input);
     }
-}
-fn berr(e: &PacketBuilderError) -> &'static str { match e { PacketBuilderError::OutOfOrder => "OutOfOrder", PacketBuilderError::SingleFramePacket => "SingleFramePacket", PacketBuilderError::TooManyFrames => "TooManyFrames",
-    PacketBuilderError::WrongFrameType => "WrongFrameType", PacketBuilderError::DeviceAddressMismatch => "DeviceAddressMismatch", PacketBuilderError::MissingFrames => "MissingFrames" } }
-fn build_str(b: &PacketBuilder) -> String { match catch_unwind(AssertUnwindSafe(|| b.build())) { Err(_) => "panic".into(), Ok(Ok(p)) => format!("ok({})", show::packet(&p)), Ok(Err(e)) => format!("err({})", berr(&e)) } }
-fn builder_state(b: &PacketBuilder) -> String {
-    let left = match catch_unwind(AssertUnwindSafe(|| b.frames_left())) { Ok(n) => n.to_string(), Err(_) => "panic".into() };
-    format!("{}/{}/{}/{}/{}", b.expected_frame_count(), b.frame_count(), left, build_str(b), build_str(b))
-}
-fn wire(p: &Packet) -> Vec<Vec<u8>> { catch_unwind(AssertUnwindSafe(|| p.to_frames().iter().map(|f| { let u = f.to_usart_frame(); let mut w = vec![0, u.len() as u8]; w.extend(u); w }).collect())).unwrap_or_default() }
-fn poll_loop(mut get: impl FnMut() -> Result<Packet, InterfaceError>, empty: impl Fn() -> bool) -> String {
-    let mut res: Vec<String> = vec![];
-    loop {
-        let r = catch_unwind(AssertUnwindSafe(|| get()));
-        let (s, stop) = match r {
-            Err(e) => { let msg = e.downcast_ref::<String>().cloned().or_else(|| e.downcast_ref::<&str>().map(|s| s.to_string())).unwrap_or_default(); (if msg.contains(BLOCKED) { "blocked" } else { "panic" }.to_string(), true) }
-            Ok(Ok(p)) => (format!("ok({})", show::packet(&p)), false),
-            Ok(Err(InterfaceError::NoPacketReceived)) => ("nothing".to_string(), empty()),
-            Ok(Err(_)) => ("err".to_string(), false) };
-        res.push(s); if stop || res.len() > 100000 { break; }
-    }
-    res.join(",")
-}
-/// like `poll_loop`, with the receiver's tracked heap after each call (returned packet already dropped) and the peak inside it
-fn poll_loop_heap(mut get: impl FnMut() -> Result<Packet, InterfaceError>, empty: impl Fn() -> bool) -> String {
-    let mut res: Vec<String> = Vec::with_capacity(4096);
-    loop {
-        alloc::reset_peak();
-        let r = catch_unwind(AssertUnwindSafe(|| alloc::track(|| get())));
-        let (s, stop, plen) = match r {
-            Err(_) => ("blocked".to_string(), true, 0),
-            Ok(Ok(p)) => { let n = p.data.len(); let s = format!("ok({})", show::packet(&p)); alloc::track(|| drop(p)); (s, false, n) }
-            Ok(Err(InterfaceError::NoPacketReceived)) => ("nothing".to_string(), empty(), 0),
-            Ok(Err(_)) => ("err".to_string(), false, 0) };
-        res.push(format!("{}@{}/{}/{}", s, alloc::live(), alloc::peak(), plen)); if stop || res.len() > 4000 { break; }
-    }
-    res.join(",")
-}
-fn byte_script(items: &[ByteItem]) -> String { if items.is_empty() { return "-".into(); } items.iter().map(|x| match x { ByteItem::Byte(b) => format!("{:02x}", b), ByteItem::WouldBlock => ".".into(), ByteItem::Error => "!".into(), ByteItem::Interrupted => "~".into(), ByteItem::Eof => "$".into() }).collect() }
-
-/// hostile byte-link history (whole link frames, noise, gaps) followed by two probe packets
-fn gen_byte_history(r: &mut Rng, serial: bool) -> Vec<ByteItem> {
-    let mut segs: Vec<Vec<u8>> = vec![]; // each seg: whole link frame or noise; gaps marked by empty vec
-    for _ in 0..r.below(7) {
-        match r.below(8) {
-            0 => { let l = r.below(24) as u8; let mut v = vec![0, l]; v.extend(r.bytes(l as usize)); segs.push(v); }
-            1 => { let p = Packet { is_error: r.flip(), device_address: 7, data: gen_bytes(r.below(99), r.below(40) as usize) }; let w = wire(&p); let k = r.below(w.len() as u64 + 1) as usize; segs.extend(w.into_iter().take(k)); }
-            2 => segs.push(vec![0, 0]),
-            3 => segs.push((0..r.below(4)).map(|_| 1 + r.below(255) as u8).collect()),
-            4 => { let p = Packet { is_error: false, device_address: 7, data: gen_bytes(r.below(99), 9 + r.below(30) as usize) }; let mut w = wire(&p); if w.len() > 1 { let i = r.below(w.len() as u64) as usize; let j = r.below(w.len() as u64) as usize; w.swap(i, j); } segs.extend(w); }
-            5 => { let p = Packet { is_error: false, device_address: 7, data: gen_bytes(r.below(99), 9 + r.below(30) as usize) }; let mut w = wire(&p); let i = r.below(w.len() as u64) as usize; let k = 2 + r.below(w[i].len() as u64 - 2) as usize; w[i][k] = r.byte(); segs.extend(w); }
-            6 => { let l = 5 + 9 + r.below(20) as usize; let mut body = vec![l as u8 + 1, 0x80 | r.below(16) as u8, 1 + r.below(255) as u8, 1 + r.below(255) as u8, 1 + r.below(255) as u8, (l - 5) as u8]; body.extend((0..l - 5).map(|_| 1 + r.below(255) as u8)); let mut v = vec![0, body.len() as u8]; v.extend(body); segs.push(v); }
-            _ => { let p = Packet { is_error: r.flip(), device_address: r.u16(), data: gen_bytes(r.below(99), r.below(30) as usize) }; segs.extend(wire(&p)); }
-        }
-    }
-    for probe in 0..2u16 { let p = Packet { is_error: false, device_address: 7 + probe, data: gen_bytes(r.below(99), r.below(25) as usize) }; segs.extend(wire(&p)); }
-    let mut items = vec![];
-    for s in segs {
-        if r.below(4) == 0 { items.push(ByteItem::WouldBlock); }
-        if serial && r.below(9) == 0 { items.push(ByteItem::Interrupted); }
-        for b in s { if !serial && r.below(9) == 0 { items.push(ByteItem::WouldBlock); } if serial && r.below(30) == 0 { items.push(ByteItem::Interrupted); } items.push(ByteItem::Byte(b)); }
-    }
-    if r.below(5) == 0 { items.push(ByteItem::WouldBlock); }
-    items
+    // every call into the code under test is guarded inside `exec`; this outer guard catches harness bugs
+    let obs = match catch_unwind(AssertUnwindSafe(|| scen::exec(input))) {
+        Ok(Some(o)) => o,
+        Ok(None) => "HARNESS-UNPARSABLE".into(),
+        Err(_) => "HARNESS-PANIC".into(),
+    };
+    writeln!(out, "{} => {}", input, obs).unwrap();
 }
 
 fn main() {
     std::panic::set_hook(Box::new(|_| {}));
     let args: Vec<String> = std::env::args().collect();
-    let group = args.get(1).map(|s| s.as_str()).unwrap_or("all").to_string();
-    let n: usize = args.get(2).and_then(|s| s.parse().ok()).unwrap_or(1000);
-    let mut rng = Rng(std::env::var("VERIF_SEED").ok().and_then(|s| s.parse().ok()).unwrap_or(1));
-    let out = std::io::stdout(); let mut out = std::io::BufWriter::new(out.lock());
-    let on = |g: &str| group == "all" || group == g;
-    if on("usart_dec") { for i in 0..n {
-        let body: Vec<u8> = match i % 4 { 0 => { let len = rng.below(40) as usize; rng.bytes(len) } 1 => { let len = rng.below(256) as usize; rng.bytes(len) }
-            _ => { let f = gen_frame(&mut rng, true); let mut u = f.to_usart_frame();
-                match rng.below(6) { 0 => { let k = rng.below(u.len() as u64) as usize; u[k] = rng.byte(); } 1 => { u.pop(); } 2 => { u.push(rng.byte()); } 3 => { let k = rng.below(u.len() as u64) as usize; u.insert(k, 0); } 4 => { if u.len() > 5 { u[5] = rng.byte(); } } _ => {} } u } };
-        let b2 = body.clone(); let r = catch_unwind(move || Frame::from_usart_frame(b2));
-        writeln!(out, "usart_dec {} => {}", show::hex(&body), class(r, show::frame)).unwrap(); } }
-    if on("usart_enc") { for _ in 0..n { let wf = rng.below(5) != 0; let f = gen_frame(&mut rng, wf); let f2 = show::copy_frame(&f);
-        let r = catch_unwind(move || Ok::<_, ()>(f2.to_usart_frame())); writeln!(out, "usart_enc {} => {}", show::frame(&f), class(r, |u| show::hex(u))).unwrap(); } }
-    if on("can_dec") { for _ in 0..n { let c = gen_can(&mut rng); let c2 = c.clone(); let r = catch_unwind(move || Frame::from_bxcan_frame(c2));
-        writeln!(out, "can_dec {} => {}", show::can(&c), class(r, show::frame)).unwrap(); } }
-    if on("can_enc") { for _ in 0..n { let wf = rng.below(5) != 0; let f = gen_frame(&mut rng, wf); let f2 = show::copy_frame(&f);
-        let r = catch_unwind(move || Ok::<_, ()>(f2.to_bxcan_frame())); writeln!(out, "can_enc {} => {}", show::frame(&f), class(r, show::can)).unwrap(); } }
-    if on("to_frames") { for i in 0..n.min(2000) {
-        let len = if i < 70 { i } else if i < 90 { [1791, 1792, 1793, 1799, 28664, 28665, 28666, 28671, 28672, 1785, 14, 15, 16, 63, 64, 65, 255 * 7, 256 * 7 + 1, 4095 * 7, 4095 * 7 + 1][i - 70] } else { rng.below(3000) as usize };
-        let seed = rng.below(1000); let (e, a) = (rng.flip(), rng.u16());
-        let p = Packet { is_error: e, device_address: a, data: gen_bytes(seed, len) };
-        let res = match catch_unwind(AssertUnwindSafe(|| p.to_frames())) { Err(_) => "panic".to_string(), Ok(v) => { let fs: Vec<String> = v.iter().map(show::frame).collect(); format!("ok({})", if fs.len() <= 4 { fs.join(",") } else { show::digest(&fs) }) } };
-        writeln!(out, "to_frames {} => {}", show::packet_gen(e, a, seed, len), res).unwrap(); } }
-    if on("builder") { for _ in 0..n {
-        // start frame, then frames generated relative to the builder state: the exact next frame and single-attribute mutations
-        let announced = 1 + match rng.below(4) { 0 => 0, 1 => rng.below(4), 2 => rng.below(300), _ => 4095 } as u16;
-        let (ne, addr, multi) = (rng.flip(), rng.u16(), rng.below(8) != 0);
-        let mut f0 = gen_frame(&mut rng, true); f0.not_error_flag = ne; f0.device_address = addr; f0.multi_frame_flag = multi;
-        if rng.below(10) != 0 { f0.start_frame_flag = true; f0.frame_id = FrameId::LastFrameId(announced - 1); }
-        let mut steps: Vec<String> = vec![]; let mut fs: Vec<String> = vec![];
-        match PacketBuilder::new(show::copy_frame(&f0)) {
-            Err(e) => steps.push(format!("err({})", berr(&e))),
-            Ok(mut b) => { steps.push(format!("ok/{}", builder_state(&b)));
-                for _ in 0..rng.below(9) {
-                    let next = b.frame_count();
-                    let mut f = gen_frame(&mut rng, true); f.not_error_flag = ne; f.device_address = addr; f.start_frame_flag = false; f.multi_frame_flag = true; f.frame_id = FrameId::CurrentFrameId(next);
-                    match rng.below(14) { 0 => f.not_error_flag = !ne, 1 => f.device_address = addr ^ (1 << rng.below(16)), 2 => f.start_frame_flag = true, 3 => f.multi_frame_flag = false,
-                        4 => f.frame_id = FrameId::LastFrameId(next), 5 => f.frame_id = FrameId::CurrentFrameId(next.wrapping_sub(1) & 0xfff), 6 => f.frame_id = FrameId::CurrentFrameId((next + 1) & 0xfff),
-                        7 => f.frame_id = FrameId::CurrentFrameId(announced & 0xfff), 8 => f = gen_frame(&mut rng, true), _ => {} }
-                    fs.push(show::frame(&f));
-                    match b.add_frame(f) { Ok(()) => steps.push(format!("ok/{}", builder_state(&b))), Err(e) => steps.push(format!("err({})/{}", berr(&e), builder_state(&b))) }
-                } } }
-        writeln!(out, "builder {} {} => {}", show::frame(&f0), if fs.is_empty() { "-".into() } else { fs.join(",") }, steps.join(";")).unwrap(); } }
-    if on("ev_enc") { for i in 0..n { let e = Ev::gen(i % 16, &mut rng); let p = e.to_packet(); let mask = e.pad_mask();
-        let body: String = if p.data.is_empty() { "-".into() } else { p.data.iter().enumerate().map(|(i, b)| if mask.contains(&i) { "xx".to_string() } else { format!("{:02x}", b) }).collect() };
-        writeln!(out, "ev_enc {} => {}:{:04x}:{}", e.show(), if p.is_error { 'E' } else { 'D' }, p.device_address, body).unwrap(); } }
-    if on("ev_dec") {
-        // systematic sweep: every variant tag byte 0..=255 (and every flag byte class) in otherwise valid packets of the kinds that have one
-        let mut sweep: Vec<(usize, Packet)> = vec![];
-        for tag in 0..=255u8 {
-            for len in 7..=12usize { let mut d = vec![0, 6, 0x12, 0x34, 9, tag]; d.extend((0..len - 6).map(|i| i as u8 + 1)); sweep.push((6, Packet { is_error: false, device_address: 1, data: d })); }
-            for len in 11..=16usize { let mut d = vec![0, 13, 0x12, 0x34, 9, 1, 2, 3, 4, tag]; d.extend((0..len - 10).map(|i| i as u8 + 1)); sweep.push((13, Packet { is_error: false, device_address: 1, data: d })); }
-            sweep.push((14, Packet { is_error: false, device_address: 1, data: vec![0, 14, 0x12, 0x34, 9, tag] }));
-            for b in [0u8, 1, 2, 0xff] { for hi in [0u8, 1] { sweep.push((12, Packet { is_error: false, device_address: 1, data: vec![0, 12, 0x12, 0x34, 0, 7, tag, hi, 0, 0, b, 0, 0, 0] })); } }
-            sweep.push((12, Packet { is_error: false, device_address: 1, data: vec![0, 12, 0x12, 0x34, 0, 7, 2, 0, 0, tag, 5, 6, 7, 8] }));
+    let seed: u64 = std::env::var("VERIF_SEED").ok().and_then(|s| s.parse().ok()).unwrap_or(1);
+    let inflight = std::env::var("VERIF_INFLIGHT").is_ok();
+    let out = std::io::stdout();
+    let mut out = std::io::BufWriter::new(out.lock());
+    let mode = args.get(1).map(|s| s.as_str()).unwrap_or("");
+    let mut n = 0u64;
+    match mode {
+        "run" | "gen" => {
+            let group = args.get(2).expect("group");
+            let from: u64 = args.get(3).and_then(|s| s.parse().ok()).unwrap_or(0);
+            let to: u64 = args.get(4).and_then(|s| s.parse().ok()).unwrap_or(1000);
+            let g = scen::Gen::new();
+            for i in from..to {
+                let Some(input) = g.input(group, seed, i) else {
+                    eprintln!("unknown group {}; known: {}", group, scen::GROUPS.join(" "));
+                    std::process::exit(2);
+                };
+                if mode == "gen" {
+                    writeln!(out, "{}", input).unwrap();
+                } else {
+                    run_one(&mut out, &input, inflight);
+                }
+                n += 1;
+            }
         }
-        for (kind, p) in sweep { let p2 = p.clone(); let r = catch_unwind(move || Ev::decode(kind, &p2));
-            let s = match r { Err(_) => "panic".to_string(), Ok(Err(e)) => format!("err({})", ev::cerr(&e)), Ok(Ok(v)) => if v.domain_ok() { format!("ok({})", v.show()) } else { "ok(INVALID)".into() } };
-            writeln!(out, "ev_dec k{} {} => {}", kind, show::packet(&p), s).unwrap(); }
-        for i in 0..n {
-        // a valid encoding of some kind, possibly mutated, shown to some decoder (mostly its own)
-        let e = Ev::gen(i % 16, &mut rng); let mut p = e.to_packet();
-        for &k in e.pad_mask() { p.data[k] = 0; }
-        // variant tags and flag bytes: every small value and the boundaries, at the positions where the layouts keep them
-        if rng.below(3) == 0 { const T: [u8; 12] = [0, 1, 2, 3, 4, 5, 6, 7, 0x7f, 0x80, 0xfe, 0xff];
-            let pos: &[usize] = match e.kind() { 6 | 14 => &[5, 6], 13 => &[9, 10], 12 => &[6, 7, 8, 9, 10], _ => &[] };
-            if !pos.is_empty() { let k = pos[rng.below(pos.len() as u64) as usize]; if k < p.data.len() { p.data[k] = T[rng.below(12) as usize]; } } }
-        match rng.below(10) { 0 => { if !p.data.is_empty() { let k = rng.below(p.data.len() as u64) as usize; p.data[k] = rng.byte(); } } 1 => { p.data.pop(); } 2 => { p.data.push(rng.byte()); } 3 => p.is_error = true,
-            4 => { let l = rng.below(20) as usize; p.data = rng.bytes(l); } 5 => { if p.data.len() > 1 { p.data[1] = rng.below(18) as u8; } } 6 => { p.data.truncate(rng.below(7) as usize); } _ => {} }
-        let kind = if rng.below(4) == 0 { rng.below(16) as usize } else { e.kind() };
-        let p2 = p.clone(); let r = catch_unwind(move || Ev::decode(kind, &p2));
-        let s = match r { Err(_) => "panic".to_string(), Ok(Err(e)) => format!("err({})", ev::cerr(&e)), Ok(Ok(v)) => if v.domain_ok() { format!("ok({})", v.show()) } else { "ok(INVALID)".into() } };
-        writeln!(out, "ev_dec k{} {} => {}", kind, show::packet(&p), s).unwrap(); } }
-    if on("ev_cross") { for i in 0..n { let e = Ev::gen(i % 16, &mut rng); let mut p = e.to_packet(); for &k in e.pad_mask() { p.data[k] = 0; }
-        if rng.below(4) == 0 && !p.data.is_empty() { let k = rng.below(p.data.len() as u64) as usize; p.data[k] = rng.byte(); }
-        let mut mask = 0u32; for k in 0..16 { let p2 = p.clone(); if let Ok(Ok(_)) = catch_unwind(move || Ev::decode(k, &p2)) { mask |= 1 << k; } }
-        writeln!(out, "ev_cross {} => {:04x}", show::packet(&p), mask).unwrap(); } }
-    if on("rx_usart") { for _ in 0..n.min(5000) { let items = gen_byte_history(&mut rng, false);
-        let sh: Shared = Arc::new(Mutex::new(ByteScript { rx: items.iter().copied().collect(), ..Default::default() }));
-        let mut u = Usart::new(UsartDev(sh.clone()));
-        let res = poll_loop(|| u.try_get_packet(), || sh.lock().unwrap().rx.is_empty());
-        writeln!(out, "rx usart {} => {}", byte_script(&items), res).unwrap(); } }
-    if on("rx_serial") { for _ in 0..n.min(5000) { let items = gen_byte_history(&mut rng, true);
-        let sh: Shared = Arc::new(Mutex::new(ByteScript { rx: items.iter().copied().collect(), chunk: 1 + rng.below(5) as usize, ..Default::default() }));
-        let mut u = Serial::new(Box::new(SerialDev(sh.clone())));
-        let res = poll_loop(|| u.try_get_packet(), || sh.lock().unwrap().rx.is_empty());
-        writeln!(out, "rx serial {} => {}", byte_script(&items), res).unwrap(); } }
-    if on("rx_can") { for _ in 0..n.min(5000) {
-        let mut items: Vec<CanItem> = vec![];
-        for _ in 0..rng.below(6) { match rng.below(4) { 0 => items.push(CanItem::Frame(gen_can(&mut rng))),
-            1 => { let p = Packet { is_error: rng.flip(), device_address: 7, data: gen_bytes(rng.below(99), rng.below(40) as usize) }; let fs = p.to_frames(); let k = rng.below(fs.len() as u64 + 1) as usize; for f in fs.iter().take(k) { items.push(CanItem::Frame(f.to_bxcan_frame())); } }
-            2 => items.push(if rng.flip() { CanItem::WouldBlock } else { CanItem::Overrun }),
-            _ => { let p = Packet { is_error: rng.flip(), device_address: rng.u16(), data: gen_bytes(rng.below(99), rng.below(30) as usize) }; for f in p.to_frames() { if rng.below(5) == 0 { items.push(CanItem::WouldBlock); } items.push(CanItem::Frame(f.to_bxcan_frame())); } } } }
-        for probe in 0..2u16 { let p = Packet { is_error: false, device_address: 7 + probe, data: gen_bytes(rng.below(99), rng.below(25) as usize) }; for f in p.to_frames() { if rng.below(5) == 0 { items.push(CanItem::WouldBlock); } items.push(CanItem::Frame(f.to_bxcan_frame())); } }
-        let script: Vec<String> = items.iter().map(|x| match x { CanItem::Frame(f) => show::can(f), CanItem::WouldBlock => ".".into(), CanItem::Overrun => "!".into() }).collect();
-        let sh = Arc::new(Mutex::new(CanScript { rx: items.into_iter().collect(), ..Default::default() }));
-        let mut c = Can::new(bxcan::Can::new(CanDev(sh.clone())));
-        let res = poll_loop(|| c.try_get_packet(), || sh.lock().unwrap().rx.is_empty());
-        writeln!(out, "rx can {} => {}", if script.is_empty() { "-".into() } else { script.join(",") }, res).unwrap(); } }
-    if on("tx") { for _ in 0..n.min(3000) {
-        let (e, a, seed, len) = (rng.flip(), rng.u16(), rng.below(1000), match rng.below(4) { 0 => rng.below(9) as usize, 1 => rng.below(30) as usize, 2 => rng.below(200) as usize, _ => rng.below(2000) as usize });
-        let p = Packet { is_error: e, device_address: a, data: gen_bytes(seed, len) }; let ps = show::packet_gen(e, a, seed, len);
-        // usart: would-block bursts
-        let resp: String = (0..rng.below(60)).map(|_| if rng.below(3) == 0 { '.' } else { 'a' }).collect();
-        let sh: Shared = Arc::new(Mutex::new(ByteScript { wresp: resp.chars().collect(), ..Default::default() }));
-        let mut u = Usart::new(UsartDev(sh.clone())); let r = catch_unwind(AssertUnwindSafe(|| u.try_send_packet(&p)));
-        let res = match r { Err(_) => "panic".to_string(), Ok(Ok(())) => format!("{} ok", show::log_bytes(&sh.lock().unwrap().tx)), Ok(Err(_)) => format!("{} err", show::log_bytes(&sh.lock().unwrap().tx)) };
-        writeln!(out, "tx usart {} {} => {}", ps, if resp.is_empty() { "-".into() } else { resp }, res).unwrap();
-        // can: would-block and displaced
-        let resp: String = (0..rng.below(40)).map(|_| match rng.below(12) { 0 => 'd', 1 | 2 | 3 => '.', _ => 's' }).collect();
-        let sh = Arc::new(Mutex::new(CanScript { tresp: resp.chars().collect(), ..Default::default() }));
-        let mut c = Can::new(bxcan::Can::new(CanDev(sh.clone()))); let r = catch_unwind(AssertUnwindSafe(|| c.try_send_packet(&p)));
-        let log: Vec<String> = sh.lock().unwrap().tx.iter().map(show::can).collect();
-        let logs = if log.len() <= 4 { if log.is_empty() { "-".to_string() } else { log.join(",") } } else { show::digest(&log) };
-        let res = match r { Err(_) => "panic".to_string(), Ok(Ok(())) => format!("{} ok", logs), Ok(Err(_)) => format!("{} err", logs) };
-        writeln!(out, "tx can {} {} => {}", ps, if resp.is_empty() { "-".into() } else { resp }, res).unwrap();
-        // serial: short writes, interrupted, errors, flush
-        let resps: Vec<IoResp> = (0..rng.below(50)).map(|_| match rng.below(14) { 0 => IoResp::Error, 1 => IoResp::Wrote(0), 2 | 3 => IoResp::Interrupted, _ => IoResp::Wrote(1 + rng.below(6) as usize) }).collect();
-        let rs: Vec<String> = resps.iter().map(|x| match x { IoResp::Wrote(n) => format!("w{}", n), IoResp::Interrupted => "~".into(), IoResp::Error => "!".into() }).collect();
-        let flush_ok = rng.below(8) != 0;
-        let sh: Shared = Arc::new(Mutex::new(ByteScript { io_resp: resps.into_iter().collect(), flush_ok, ..Default::default() }));
-        let mut s = Serial::new(Box::new(SerialDev(sh.clone()))); let r = catch_unwind(AssertUnwindSafe(|| s.try_send_packet(&p)));
-        let res = match r { Err(_) => "panic".to_string(), Ok(Ok(())) => format!("{} ok", show::log_bytes(&sh.lock().unwrap().tx)), Ok(Err(_)) => format!("{} err", show::log_bytes(&sh.lock().unwrap().tx)) };
-        writeln!(out, "tx serial {} {} {} => {}", ps, if rs.is_empty() { "-".into() } else { rs.join(",") }, if flush_ok { "o" } else { "!" }, res).unwrap();
-    } }
-    if on("rx_heap") { for _ in 0..n.min(3000) { let items = gen_byte_history(&mut rng, false);
-        let sh: Shared = Arc::new(Mutex::new(ByteScript { rx: items.iter().copied().collect(), ..Default::default() }));
-        let mut u = Usart::new(UsartDev(sh.clone()));
-        let res = poll_loop_heap(|| u.try_get_packet(), || sh.lock().unwrap().rx.is_empty());
-        writeln!(out, "rx_heap usart {} => {}", byte_script(&items), res).unwrap();
-        let items = gen_byte_history(&mut rng, true);
-        let sh: Shared = Arc::new(Mutex::new(ByteScript { rx: items.iter().copied().collect(), chunk: 1 + rng.below(5) as usize, ..Default::default() }));
-        let mut u = Serial::new(Box::new(SerialDev(sh.clone())));
-        let res = poll_loop_heap(|| u.try_get_packet(), || sh.lock().unwrap().rx.is_empty());
-        writeln!(out, "rx_heap serial {} => {}", byte_script(&items), res).unwrap(); } }
-    if on("proto") { for _ in 0..n { writeln!(out, "{}", proto::one(&mut rng)).unwrap(); } }
+        "exec" => {
+            let path = args.get(2).map(|s| s.as_str()).unwrap_or("-");
+            let rd: Box<dyn BufRead> = if path == "-" { Box::new(std::io::BufReader::new(std::io::stdin())) } else { Box::new(std::io::BufReader::new(std::fs::File::open(path).expect("open"))) };
+            for line in rd.lines() {
+                let line = line.unwrap();
+                let input = line.split(" => ").next().unwrap().trim();
+                if input.is_empty() || input.starts_with('#') {
+                    continue;
+                }
+                run_one(&mut out, input, inflight);
+                n += 1;
+            }
+        }
+        _ => {
+            eprintln!("usage: ross-harness run|gen <group> <from> <to> | exec <file>");
+            std::process::exit(2);
+        }
+    }
+    writeln!(out, "END lines={}", n).unwrap();
     out.flush().unwrap();
 }
